@@ -152,9 +152,23 @@ def gen_c15(rng: random.Random, tier: str) -> dict:
         a = rng.randrange(20, 600)
         pol['starve'] = {'match': f'>{w}', 'from': a,
                          'to': a + rng.randrange(30, 300)}
+    script = [{'op': 'compile', 'prog': prog}]
+    if rng.random() < 0.3:
+        # a client cancels a compilation at an arbitrary point of its run
+        # (in particular: between the worker finishing the root task and
+        # the server reading its RESULT), then compiles again
+        small = tasktree.gen_program(
+            rng, max_nodes=rng.choice([1, 2, 4, 8]), max_depth=2,
+            max_fanout=3, id_base=5000)
+        script = [{'op': 'submit', 'as': 't0', 'prog': small},
+                  {'op': 'wait_steps', 'n': rng.choice(
+                      [0, 5, 10, 15, 20, 25, 30, 40, 50, 70, 100, 150])},
+                  {'op': 'cancel', 't': 't0'}]
+        if rng.random() < 0.6:
+            script.append({'op': 'compile', 'prog': prog})
     return {
         'topo': topo,
-        'clients': [{'script': [{'op': 'compile', 'prog': prog}]}],
+        'clients': [{'script': script}],
         'policy': pol,
         'faults': [],
         'monitors': ['bookkeeping'],
